@@ -1,7 +1,7 @@
 (* C08 -- statements only; see DESIGN.md section 6 C08.  Theorems are added as the proofs land;
    the witnesses below are evaluated in the kernel on the whole-parser model. *)
 From Coq Require Import String.
-From MdIt Require Import Prims Tables Tree Render Core Dump Dispatch.
+From MdIt Require Import Prims Tables Ruler Tree Render Core Dump Dispatch CacheProofs.
 Local Open Scope string_scope.
 Local Open Scope list_scope.
 Local Open Scope N_scope.
@@ -24,3 +24,33 @@ Example C08_witness_remove_after_parse :
   | inl _ => False
   end.
 Proof. vm_compute. reflexivity. Qed.
+
+(* deleting the parse calls from any history of plugin adds, rule removals (block, inline -- also
+   rules with letter markers --, core), nesting-limit changes and parses does not change what the
+   next parse returns *)
+Theorem C08_erase_parses : forall ops src,
+  result_after md_new ops src = result_after md_new (filter (fun o => negb (is_parse o)) ops) src.
+Proof. exact erase_parses_same_result. Qed.
+
+(* configuration calls look at the configuration only and leave the caches coherent *)
+Theorem C08_add_is_config_only : forall cs m, md_coherent m ->
+  md_coherent (add_plugins m cs) /\ md_clear (add_plugins m cs) = md_clear (add_plugins (md_clear m) cs).
+Proof. intros cs. exact (add_plugins_cfg cs). Qed.
+Theorem C08_remove_is_config_only : forall c m, md_coherent m ->
+  md_coherent (remove_plugin_rule m c) /\ md_clear (remove_plugin_rule m c) = md_clear (remove_plugin_rule (md_clear m) c).
+Proof. intros c. exact (remove_rule_cfg c). Qed.
+
+(* the same for one Ruler: iterating or Debug-printing in between never changes what a later
+   iteration returns, for any sequence of add (with any builder calls) and remove *)
+Theorem C08_ruler_erase_uses : forall ops,
+  snd (r_iter (fold_left rstep ops ruler_new)) =
+  snd (r_iter (fold_left rstep (filter (fun o => negb (is_use o)) ops) ruler_new)).
+Proof. intros ops. apply ruler_erase_uses; [left; reflexivity|left; reflexivity|reflexivity]. Qed.
+
+(* a removed rule is not in the chain any more: the chain is compiled from the current rule list *)
+Theorem C08_iter_is_compile : forall r, coherent r ->
+  snd (r_iter r) = snd (r_iter (clear r)).
+Proof. intros r H. exact (proj1 (iter_spec r H)). Qed.
+
+Print Assumptions C08_erase_parses.
+Print Assumptions C08_ruler_erase_uses.
